@@ -184,4 +184,8 @@ def encodeSE : Str → Option Bytes
 /-- `os.path.basename`: everything after the last `/` -/
 def basename (s : Str) : Str := (splitOn 47 s).getLast?.getD []
 
+/-- `GopherProtocol.menufield` (and the error line of `BaseGopherProtocol.filenotfound`): TAB, CR and LF
+    delimit the fields and lines of a menu and cannot be part of a field; each becomes a blank -/
+def menuField (s : Str) : Str := s.map fun c => if c = 9 ∨ c = 13 ∨ c = 10 then 32 else c
+
 end Pyg
